@@ -90,7 +90,9 @@ def stream_histories(ctx, built, count, name="S-blob"):
             for ds, (df, pids, _) in data.items():
                 d = tempfile.mkdtemp(prefix="sdxblobref")
                 with quiet(): SyndiffixBlobBuilder(bname, d).write(df, pids)
-                ref[ds] = members_of(os.path.join(d, bname + ".sdxblob.zip")); refzip[ds] = open(os.path.join(d, bname + ".sdxblob.zip"), "rb").read(); shutil.rmtree(d)
+                import glob as _glob
+                zs_ = _glob.glob(os.path.join(_glob.escape(d), "*.zip"))       # wherever the builder put the archive
+                ref[ds] = members_of(zs_[0]) if zs_ else {}; refzip[ds] = open(zs_[0], "rb").read() if zs_ else b""; shutil.rmtree(d)
             L = R.randint(3, ctx.scale(6, 10))
             directed = [["b1", "o", "i2", "o"], ["b1", "o", "b2", "o"], ["b2", "o", "i1", "o", "i2", "o"], ["b1", "o", "xflip", "o"], ["b1", "b2", "o"], ["n", "w1", "o", "w2", "o"], ["n", "b1", "o", "w2", "o"], ["b1", "d", "o"], ["b1", "xtruncate", "o"],
                         ["w1", "w2", "o"], ["b1", "o", "b2", "xflip", "o"]]
